@@ -278,7 +278,7 @@ func mapOrderPhase(r *ev.Run, variants []chain.GenesisOptions) {
 		c := &checker{prop: "C01", w: w, alpha: w.alphabet("c01"), specs: bundleSpecs("C01", true), mapOrder: true}
 		n := len(c.alpha)
 		total := n * n
-		single := opts.Runtime && !r.Thorough()
+		single := (opts.Runtime || opts.Focus != "") && !r.Thorough()
 		if single {
 			total = n
 		}
@@ -458,6 +458,12 @@ func runHistories(r *ev.Run) {
 				Prefix: []string{"km-churp-create(nodes=[],honest)", "km-churp-apply(nodes=[0 1 2],honest)"}})
 		}
 	}
+	if prop == "C10" || prop == "C01" {
+		// CHURP after a completed handoff: scheme created, all nodes applied and confirmed (handoff 1 done), all
+		// nodes applied again; the explored letters (CHURP only) meet the second handoff of an unchanged committee
+		variants = append(variants, chain.GenesisOptions{KeyManager: true, EpochInterval: 3, NodeExpiration: 30, Escrow: []uint64{3000, 3000, 3000}, Feature261: true, Focus: "churp",
+			Prefix: []string{"km-churp-create(nodes=[],honest)", "km-churp-apply(nodes=[0 1 2],honest)", "km-churp-confirm(nodes=[0 1 2],honest)", "km-churp-apply(nodes=[0 1 2],honest)", "empty-block"}})
+	}
 	if prop == "C05" || prop == "C10" || (prop == "C01" && r.Thorough()) {
 		// a vault at genesis: funds held by a module account with a withdraw hook, actions that execute inner messages
 		variants = append(variants, chain.GenesisOptions{Vault: true, EpochInterval: 3})
@@ -566,6 +572,9 @@ func runHistories(r *ev.Run) {
 			if prop == "C10" && !r.Thorough() && opts.CommonPool >= 60 && opts.CommonPool <= 160 && !opts.Runtime {
 				// common-pool sweep: what matters is which rewards meet the depleted pool at the epoch
 				// transitions, which the timelines cover; histories of depth 1 only
+				vdepth = 1
+			}
+			if prop == "C01" && !r.Thorough() && opts.Focus != "" {
 				vdepth = 1
 			}
 			if prop == "C10" && !r.Thorough() && opts.Runtime && (len(opts.NodeExpirations) > 0 && opts.RtBackupSize > 0 || opts.RtMaxInMessages > 1 || opts.EpochInterval >= 10) {
